@@ -11,6 +11,7 @@ mod c09;
 mod c10;
 mod c11;
 mod c13;
+mod c14;
 mod c15;
 mod c18;
 mod dump;
@@ -83,6 +84,7 @@ fn main() {
         "c10" => c10::run(&a),
         "c11" => c11::run(&a),
         "c13" => c13::run(&a),
+        "c14" => c14::run(&a),
         "c15" => c15::run(&a),
         "c18" => c18::run(&a),
         "exec" => exec::run(&a),
